@@ -223,6 +223,7 @@ pub fn c12_history(cfg: &CardCfg, nops: usize, seed: u64, prop: &str, rep: &mut 
             1 => 3 + rng.usize_below(6),
             // occasionally long transfers
             2 => 9 + rng.usize_below(40),
+            3 if opi % 3 == 0 => 60 + rng.usize_below(150),
             _ => 1,
         };
         if (n as u64) > rig.nblocks {
@@ -622,7 +623,7 @@ fn c13_case(cfg: &CardCfg, op: OpK, fault: &FaultSpec, which_block: u32, label: 
             }
         }
         FaultSpec::Card(m) => {
-            let garbage = matches!(m, Misbehave::Garbage(..));
+            let garbage = matches!(m, Misbehave::Garbage(..) | Misbehave::Constant(..));
             if o.ok && o.corrupted {
                 // was the (data, CRC) pair the driver received one that CRC-16 can tell is wrong?
                 let detectable = |rig: &Rig| -> bool {
@@ -792,6 +793,18 @@ pub fn run_c13_cases(ctx: &Ctx, c14_only: bool) -> Report {
             while k < t {
                 work.push((ci, op, FaultSpec::SpiError(k), 0, format!("SPI transaction {} fails", k)));
                 k += tstep;
+            }
+            // a card that answers every clock with one constant byte (every value, from the first byte,
+            // and from a few later positions): generalises "silent" and "busy forever"
+            if !c14_only {
+                for byte in 0..=255u8 {
+                    for from in [0u64, 7, b / 2] {
+                        if from != 0 && (quick && byte % 8 != (ci as u8 % 8)) {
+                            continue;
+                        }
+                        work.push((ci, op, FaultSpec::Card(Misbehave::Constant(from, byte)), 0, format!("answers {:#04x} forever from byte {} of the call", byte, from)));
+                    }
+                }
             }
             let bstep = if c14_only { (b / 3).max(1) } else if quick { (b / 400).max(1) } else { 1 };
             let mut k = 0;
